@@ -484,6 +484,19 @@ func TestVerifC09(t *testing.T) {
 		}
 	}
 	r.Bound("option_vectors", len(cases))
+	r.Bound("config_versions", "v1 (all option vectors), v0 (one scenario)")
+	if (vres.Mine(int64(len(cases))) || r.Replaying()) && r.Want("configVersion=v0") {
+		sig, what, seen := c09runV0()
+		r.Eval(1)
+		if sig != "" {
+			r.Violation(sig, "configVersion=v0", what, nil)
+			r.Outcome("V:"+sig, true)
+		} else {
+			r.State("configVersion=v0")
+			r.Outcome("configVersion=v0", true)
+			r.Sample(map[string]any{"options": "configVersion=v0", "contexts_checked": seen})
+		}
+	}
 	for i, o := range cases {
 		if !(vres.Mine(int64(i)) || r.Replaying()) {
 			continue
